@@ -9,8 +9,177 @@ theorem inv_init (cfg : Cfg) : Inv cfg init.1 init.2 := by
   obtain ⟨a, b, c, e, f⟩ := cfg
   cases a <;> cases b <;> cases c <;> cases e <;> cases f <;> decide
 
+theorem failTo_everFailed (s : St) (j : Job) (pc : JPc) : (failTo s j pc).everFailed = s.everFailed := by
+  unfold failTo giveUp; split <;> rfl
+
+theorem finishJob_everFailed (s : St) (j : Job) : (finishJob s j).everFailed = s.everFailed := by
+  unfold finishJob
+  split <;> try rfl
+  split <;> rfl
+
+/-- a job never touches the ghost flag -/
+theorem stepJob_everFailed {cfg : Cfg} {s : St} {d : Disk} {j : Job} {rot : Bool} {o : Outcome}
+    (hef : s.everFailed = false) {s' : St} {d' : Disk} (hs : stepJob cfg s d j rot o = some (s', d')) :
+    s'.everFailed = false := by
+  unfold stepJob at hs
+  simp only at hs
+  repeat' split at hs
+  all_goals first
+    | (simp only [Option.some.injEq, Prod.mk.injEq] at hs
+       obtain ⟨rfl, _⟩ := hs
+       first
+         | exact hef
+         | (rw [failTo_everFailed]; exact hef)
+         | (rw [finishJob_everFailed]; exact hef)
+         | (simp only [giveUp, install]; exact hef))
+    | cases hs
+
+theorem stepTr_everFailed {s : St} {a : Act} (hef : s.everFailed = false) {s' : St} (hs : stepTr s a = some s') :
+    s'.everFailed = false := by
+  unfold stepTr at hs
+  repeat' split at hs
+  all_goals first
+    | (simp only [Option.some.injEq] at hs; subst hs; exact hef)
+    | cases hs
+
+/-- the steps outside the writer never touch the ghost flag -/
+theorem stepOther_everFailed {s : St} (hef : s.everFailed = false) {s' : St} {d : Disk} {cfg : Cfg} {inputs : List Nat}
+    (hs : flushStart s = some s' ∨ recOpen cfg s d = some s' ∨ recStep s d = some s' ∨
+      compactStart s d inputs = some s') : s'.everFailed = false := by
+  rcases hs with hs | hs | hs | hs
+  · unfold flushStart at hs
+    repeat' split at hs
+    all_goals first
+      | (simp only [Option.some.injEq] at hs; subst hs; exact hef)
+      | cases hs
+  · unfold recOpen at hs
+    repeat' split at hs
+    all_goals first
+      | (simp only [Option.some.injEq] at hs; subst hs; exact hef)
+      | cases hs
+  · unfold recStep at hs
+    repeat' split at hs
+    all_goals first
+      | (simp only [Option.some.injEq] at hs; subst hs; exact hef)
+      | cases hs
+  · unfold compactStart at hs
+    repeat' split at hs
+    all_goals first
+      | (simp only [Option.some.injEq] at hs; subst hs; exact hef)
+      | cases hs
+
+/-- fault-free steps never set the ghost flag `everFailed` -/
+theorem step_everFailed {cfg : Cfg} {s : St} {d : Disk} {a : Act} (hff : a.writerFaultFree = true)
+    (hef : s.everFailed = false) {s' : St} {d' : Disk} (hs : step cfg s d a = some (s', d')) :
+    s'.everFailed = false := by
+  cases a with
+  | wAppend recs sync o =>
+    have ho : o = .ok := by simpa [Act.writerFaultFree] using hff
+    subst ho
+    simp only [step, stepWriter, Outcome.failed, Bool.false_eq_true, if_false] at hs
+    repeat' split at hs
+    all_goals first
+      | (simp only [Option.some.injEq, Prod.mk.injEq] at hs; obtain ⟨rfl, _⟩ := hs; exact hef)
+      | cases hs
+  | wSync o =>
+    have ho : o = .ok := by simpa [Act.writerFaultFree] using hff
+    subst ho
+    simp only [step, stepWriter, Outcome.failed, Bool.false_eq_true, if_false] at hs
+    repeat' split at hs
+    all_goals first
+      | (simp only [Option.some.injEq, Prod.mk.injEq] at hs; obtain ⟨rfl, _⟩ := hs; exact hef)
+      | cases hs
+  | rotate o =>
+    have ho : o = .ok := by simpa [Act.writerFaultFree] using hff
+    subst ho
+    simp only [step, stepWriter, Outcome.failed, Bool.false_eq_true, if_false] at hs
+    repeat' split at hs
+    all_goals first
+      | (simp only [Option.some.injEq, Prod.mk.injEq] at hs; obtain ⟨rfl, _⟩ := hs; exact hef)
+      | cases hs
+  | wApply =>
+    simp only [step, stepWriter] at hs
+    repeat' split at hs
+    all_goals first
+      | (simp only [Option.some.injEq, Prod.mk.injEq] at hs; obtain ⟨rfl, _⟩ := hs; exact hef)
+      | cases hs
+  | wPublish =>
+    simp only [step, stepWriter] at hs
+    repeat' split at hs
+    all_goals first
+      | (simp only [Option.some.injEq, Prod.mk.injEq] at hs; obtain ⟨rfl, _⟩ := hs; exact hef)
+      | cases hs
+  | wAck =>
+    simp only [step, stepWriter] at hs
+    repeat' split at hs
+    all_goals first
+      | (simp only [Option.some.injEq, Prod.mk.injEq] at hs; obtain ⟨rfl, _⟩ := hs; exact hef)
+      | cases hs
+  | flushStart =>
+    simp only [step, Option.map_eq_some_iff, Prod.mk.injEq] at hs
+    obtain ⟨s1, hs1, rfl, rfl⟩ := hs
+    exact stepOther_everFailed (cfg := cfg) (d := d) (inputs := []) hef (Or.inl hs1)
+  | job rot o =>
+    simp only [step] at hs
+    cases hj : s.job with
+    | none => rw [hj] at hs; cases hs
+    | some j =>
+      rw [hj] at hs
+      exact stepJob_everFailed hef hs
+  | crash ch =>
+    simp only [step, Option.some.injEq, Prod.mk.injEq] at hs
+    obtain ⟨rfl, rfl⟩ := hs
+    exact hef
+  | exit =>
+    simp only [step, Option.some.injEq, Prod.mk.injEq] at hs
+    obtain ⟨rfl, rfl⟩ := hs
+    exact hef
+  | recOpen =>
+    simp only [step, Option.map_eq_some_iff, Prod.mk.injEq] at hs
+    obtain ⟨s1, hs1, rfl, rfl⟩ := hs
+    exact stepOther_everFailed (inputs := []) hef (Or.inr (Or.inl hs1))
+  | recStep =>
+    simp only [step, Option.map_eq_some_iff, Prod.mk.injEq] at hs
+    obtain ⟨s1, hs1, rfl, rfl⟩ := hs
+    exact stepOther_everFailed (cfg := cfg) (inputs := []) hef (Or.inr (Or.inr (Or.inl hs1)))
+  | compactStart inputs =>
+    simp only [step, Option.map_eq_some_iff, Prod.mk.injEq] at hs
+    obtain ⟨s1, hs1, rfl, rfl⟩ := hs
+    exact stepOther_everFailed (cfg := cfg) hef (Or.inr (Or.inr (Or.inr hs1)))
+  | trBegin =>
+    simp only [step, Option.map_eq_some_iff, Prod.mk.injEq] at hs
+    obtain ⟨s1, hs1, rfl, rfl⟩ := hs
+    exact stepTr_everFailed hef hs1
+  | trPut r =>
+    simp only [step, Option.map_eq_some_iff, Prod.mk.injEq] at hs
+    obtain ⟨s1, hs1, rfl, rfl⟩ := hs
+    exact stepTr_everFailed hef hs1
+  | trCommit =>
+    simp only [step, Option.map_eq_some_iff, Prod.mk.injEq] at hs
+    obtain ⟨s1, hs1, rfl, rfl⟩ := hs
+    exact stepTr_everFailed hef hs1
+  | trDiscard =>
+    simp only [step, Option.map_eq_some_iff, Prod.mk.injEq] at hs
+    obtain ⟨s1, hs1, rfl, rfl⟩ := hs
+    exact stepTr_everFailed hef hs1
+
+theorem cleanJournals_iff {s : St} {d : Disk} :
+    cleanJournals s d = true ↔ ∀ p ∈ d.journals, s.stJn ≤ p.1 → p.2.all = [] := by
+  simp only [cleanJournals, List.all_eq_true, Bool.or_eq_true, decide_eq_true_eq, List.isEmpty_iff]
+  constructor
+  · intro h p hp hge
+    rcases h p hp with h1 | h1
+    · omega
+    · exact h1
+  · intro h p hp
+    by_cases hlt : p.1 < s.stJn
+    · exact Or.inl hlt
+    · exact Or.inr (h p hp (by omega))
+
 theorem inv_step {cfg : Cfg} (hg : cfg.Good) {s : St} {d : Disk} (h : Inv cfg s d) {a : Act}
-    (hff : a.faultFree = true) {s' : St} {d' : Disk} (hs : step cfg s d a = some (s', d')) : Inv cfg s' d' := by
+    (hff : a.faultFree = true)
+    (hcl : a = .trBegin → s.everFailed = false ∨ ∀ p ∈ d.journals, s.stJn ≤ p.1 → p.2.all = [])
+    {s' : St} {d' : Disk} (hs : step cfg s d a = some (s', d')) : Inv cfg s' d' := by
   cases a with
   | wAppend recs sync o =>
     have : o = .ok := by simpa [Act.faultFree] using hff
@@ -63,24 +232,26 @@ theorem inv_step {cfg : Cfg} (hg : cfg.Good) {s : St} {d : Disk} (h : Inv cfg s 
   | trBegin =>
     simp only [step, Option.map_eq_some_iff, Prod.mk.injEq] at hs
     obtain ⟨s1, hs1, rfl, rfl⟩ := hs
-    exact inv_stepTr h hs1
+    exact inv_stepTr h (fun e => by cases e <;> first | exact hcl rfl | skip) hs1
   | trPut _ =>
     simp only [step, Option.map_eq_some_iff, Prod.mk.injEq] at hs
     obtain ⟨s1, hs1, rfl, rfl⟩ := hs
-    exact inv_stepTr h hs1
+    exact inv_stepTr h (fun e => by cases e <;> first | exact hcl rfl | skip) hs1
   | trCommit =>
     simp only [step, Option.map_eq_some_iff, Prod.mk.injEq] at hs
     obtain ⟨s1, hs1, rfl, rfl⟩ := hs
-    exact inv_stepTr h hs1
+    exact inv_stepTr h (fun e => by cases e <;> first | exact hcl rfl | skip) hs1
   | trDiscard =>
     simp only [step, Option.map_eq_some_iff, Prod.mk.injEq] at hs
     obtain ⟨s1, hs1, rfl, rfl⟩ := hs
-    exact inv_stepTr h hs1
+    exact inv_stepTr h (fun e => by cases e <;> first | exact hcl rfl | skip) hs1
 
-theorem inv_run {cfg : Cfg} (hg : cfg.Good) {sd sd' : St × Disk} (h : Inv cfg sd.1 sd.2) (as : List Act)
-    (hff : ∀ a ∈ as, a.faultFree = true) (hr : run cfg sd as = some sd') : Inv cfg sd'.1 sd'.2 := by
+theorem inv_run {cfg : Cfg} (hg : cfg.Good) {sd sd' : St × Disk} (h : Inv cfg sd.1 sd.2)
+    (hef : sd.1.everFailed = false) (as : List Act)
+    (hff : ∀ a ∈ as, a.faultFree = true) (hr : run cfg sd as = some sd') :
+    Inv cfg sd'.1 sd'.2 ∧ sd'.1.everFailed = false := by
   induction as generalizing sd with
-  | nil => simp only [run, Option.some.injEq] at hr; subst hr; exact h
+  | nil => simp only [run, Option.some.injEq] at hr; subst hr; exact ⟨h, hef⟩
   | cons a as ih =>
     obtain ⟨s, d⟩ := sd
     simp only [run] at hr
@@ -89,11 +260,14 @@ theorem inv_run {cfg : Cfg} (hg : cfg.Good) {sd sd' : St × Disk} (h : Inv cfg s
     | some sd1 =>
       rw [hs] at hr
       obtain ⟨s1, d1⟩ := sd1
-      exact ih (sd := (s1, d1)) (inv_step hg h (hff a List.mem_cons_self) hs)
+      exact ih (sd := (s1, d1)) (inv_step hg h (hff a List.mem_cons_self) (fun _ => Or.inl hef) hs)
+        (step_everFailed (by
+          have := hff a List.mem_cons_self
+          cases a <;> simp_all [Act.faultFree, Act.writerFaultFree]) hef hs)
         (fun b hb => hff b (List.mem_cons_of_mem _ hb)) hr
 
 theorem inv_reachable {cfg : Cfg} (hg : cfg.Good) {sd : St × Disk} (h : ReachableFF cfg sd) : Inv cfg sd.1 sd.2 := by
   obtain ⟨as, hff, hr⟩ := h
-  exact inv_run hg (inv_init cfg) as hff hr
+  exact (inv_run hg (inv_init cfg) rfl as hff hr).1
 
 end GoLevel.Dur
